@@ -334,6 +334,49 @@ pub fn run(tier: Tier, seed: u64) -> i32 {
     });
     total.merge(st);
 
+    // part 2b: the operator table over a wider operand set: every power of two, its predecessor and its
+    // negation, and a fixed list of mixed constants (thorough: also runs of ones), each pair once
+    {
+        let mut v2: Vec<i64> = operand_values();
+        for k in 0..64u32 {
+            let p = (1u64 << k) as i64;
+            v2.push(p);
+            v2.push(p.wrapping_sub(1));
+            v2.push(p.wrapping_neg());
+        }
+        let mut x: u64 = 0x0123_4567_89AB_CDEF;
+        for _ in 0..tier.pick(24, 200) {
+            v2.push(x as i64);
+            x = x.wrapping_mul(6364136223846793005).wrapping_add(1442695040888963407);
+        }
+        if tier == Tier::Thorough {
+            for len in [2u32, 3, 7, 8, 15, 16, 31, 32, 33, 48] {
+                for pos in (0..=(64 - len)).step_by(5) {
+                    v2.push((((1u64 << len) - 1) << pos) as i64);
+                }
+            }
+        }
+        v2.sort();
+        v2.dedup();
+        let n2 = (v2.len() * v2.len()) as u64;
+        let per = 1500u64;
+        let chunks = n2.div_ceil(per);
+        let st = par_range(&format!("2b: 16 binary operators x W^2 (W = {} operands: powers of two, their predecessors and negations, mixed constants), in blocks of {per} pairs", v2.len()), 16 * chunks, &deadline, |idx, st| {
+            let op = BINOPS[(idx / chunks) as usize];
+            let c = idx % chunks;
+            let e = bin(op, name("p"), name("q"));
+            let pairs: Vec<[i64; 4]> = (c * per..((c + 1) * per).min(n2)).map(|i| [v2[(i / v2.len() as u64) as usize], v2[(i % v2.len() as u64) as usize], 0, 0]).filter(|v| ok_under(&e, v)).collect();
+            if pairs.is_empty() {
+                return;
+            }
+            st.nontrivial += pairs.len() as u64;
+            st.witness_n("wide_operator_table_entry", pairs.len() as u64);
+            let exprs = vec![e; pairs.len()];
+            batch(st, (6 << 32) + idx, &exprs, &pairs, "part 2b: operator semantics on the wide operand set");
+        });
+        total.merge(st);
+    }
+
     // far beyond the enumerated scope: a chain of 400 operands, parentheses nested 150 deep, unary runs
     {
         let mut exprs = vec![];
